@@ -1,29 +1,598 @@
-//! threadsim (C17) — baton scheduler over real threads. (stub, filled in below)
+//! threadsim (C17): several simulated clients — real OS threads under the
+//! baton scheduler — share real searchers; every operation's outcome is
+//! compared with the same operation executed alone on a freshly built
+//! private searcher.
 
 use crate::parent::{ClassPlan, JobSpec, ReplayFile};
-use crate::streamdrv::WorkerOut;
+use crate::rng::Hasher64;
+use crate::streamdrv::{Failure, WorkerOut};
+use crate::streamsim::{silence_panics, NSITES};
+use crate::texec::*;
+use crate::tgen::gen_thread;
+use crate::tsched::{self, Sched};
+use crate::tscen::*;
+use crate::tsut::{build_tsut, TSut};
+use aho_corasick::verif;
+use std::collections::{BTreeMap, HashSet};
+use std::sync::Mutex;
 
-#[inline]
-pub fn yield_point(_site: u32) {}
+pub use crate::tsched::yield_point;
 
-pub fn plan(_thorough: bool, _scale: f64) -> Vec<ClassPlan> {
-    vec![]
+fn lib_hook(site: u32) {
+    tsched::yield_point(site);
 }
+
+pub struct ConcRun {
+    pub results: Vec<Vec<Vec<R>>>,
+    pub decisions: Vec<u32>,
+    pub trace: u64,
+    pub switches: u64,
+    pub switches_in_lib: u64,
+    pub switch_sites: Vec<u32>,
+    pub pairs: usize,
+    pub points: u64,
+    pub stall_fired: bool,
+    pub deadlock: bool,
+    pub counters: Counters,
+    pub sites: [u64; NSITES],
+    pub thread_died: Option<String>,
+}
+
+pub fn build_all(sc: &ThreadScenario) -> Result<Vec<Option<TSut>>, String> {
+    sc.searchers.iter().map(|s| build_tsut(s).map(Some)).collect()
+}
+
+/// The concurrent phase under the baton scheduler.
+pub fn run_conc(sc: &ThreadScenario, suts: &[Option<TSut>]) -> ConcRun {
+    let n = sc.threads.len();
+    let sched = Sched::new(n, sc.policy, sc.sched_seed, sc.density, sc.change_points.clone(), sc.stall, sc.decisions.clone());
+    let slots: Mutex<Vec<Option<InFlight>>> = Mutex::new((0..sc.slots).map(|_| None).collect());
+    let counters = Mutex::new(Counters::default());
+    let results: Mutex<Vec<Vec<Vec<R>>>> = Mutex::new(vec![Vec::new(); n]);
+    let sites: Mutex<[u64; NSITES]> = Mutex::new([0; NSITES]);
+    let died: Mutex<Option<String>> = Mutex::new(None);
+    {
+        let env = Env { suts, fixed: &sc.fixed_hays, slots: &slots, counters: &counters };
+        std::thread::scope(|scope| {
+            for tid in 0..n {
+                let sched = sched.clone();
+                let env = &env;
+                let results = &results;
+                let sites = &sites;
+                let died = &died;
+                let ops = &sc.threads[tid];
+                scope.spawn(move || {
+                    tsched::install(sched.clone(), tid);
+                    verif::set_point_hook(Some(lib_hook));
+                    let _ = verif::take_point_counts();
+                    sched.wait_turn(tid);
+                    let r = std::panic::catch_unwind(std::panic::AssertUnwindSafe(|| {
+                        let mut bufs: Vec<Vec<u8>> = vec![Vec::with_capacity(1024), Vec::with_capacity(1024)];
+                        let mut res = Vec::with_capacity(ops.len());
+                        for op in ops.iter() {
+                            sched.point(tid, crate::sched::SEAM_OP);
+                            res.push(exec_op(env, None, &mut bufs, op, tid));
+                        }
+                        res
+                    }));
+                    verif::set_point_hook(None);
+                    match r {
+                        Ok(res) => results.lock().unwrap()[tid] = res,
+                        Err(p) => *died.lock().unwrap() = Some(panic_text(p)),
+                    }
+                    let c = verif::take_point_counts();
+                    {
+                        let mut s = sites.lock().unwrap();
+                        for i in 0..NSITES {
+                            s[i] += c[i];
+                        }
+                    }
+                    sched.finish(tid);
+                    tsched::uninstall();
+                });
+            }
+            sched.start();
+        });
+    }
+    // parked iterators borrow the searchers; drop them before returning
+    slots.lock().unwrap().clear();
+    let (decisions, trace, switches, switches_in_lib, switch_sites, pairs, points, stall_fired, deadlock) = sched.snapshot(|st| {
+        (
+            st.decisions_out.clone(),
+            st.trace.finish(),
+            st.switches,
+            st.switches_in_lib,
+            st.switch_sites.iter().cloned().collect::<Vec<u32>>(),
+            st.pairs.len(),
+            st.points,
+            st.stall_fired,
+            st.deadlock,
+        )
+    });
+    let sites_v = *sites.lock().unwrap();
+    let counters_v = counters.lock().unwrap().clone();
+    let thread_died = died.lock().unwrap().clone();
+    let results_v = std::mem::take(&mut *results.lock().unwrap());
+    ConcRun {
+        results: results_v,
+        decisions,
+        trace,
+        switches,
+        switches_in_lib,
+        switch_sites,
+        pairs,
+        points,
+        stall_fired,
+        deadlock,
+        counters: counters_v,
+        sites: sites_v,
+        thread_died,
+    }
+}
+
+/// Single-copy reference: every operation alone on freshly built private
+/// searchers, no scheduler installed. Handoff pairs are executed back to
+/// back on one fresh searcher.
+pub fn reference(sc: &ThreadScenario) -> Result<Vec<Vec<Vec<R>>>, String> {
+    reference_with(sc, true)
+}
+
+/// `fresh_per_op = false` builds the private searchers once per scenario
+/// (used under Miri, where construction dominates the cost).
+pub fn reference_with(sc: &ThreadScenario, fresh_per_op: bool) -> Result<Vec<Vec<Vec<R>>>, String> {
+    let shared: Vec<Option<TSut>> = if fresh_per_op { Vec::new() } else { build_all(sc)? };
+    let mut out: Vec<Vec<Vec<R>>> = sc.threads.iter().map(|t| vec![Vec::new(); t.len()]).collect();
+    // locate handoff pairs
+    let mut starts: BTreeMap<usize, (usize, usize)> = BTreeMap::new();
+    let mut resumes: BTreeMap<usize, (usize, usize)> = BTreeMap::new();
+    for (t, ops) in sc.threads.iter().enumerate() {
+        for (i, op) in ops.iter().enumerate() {
+            match op {
+                Op::StartIter { slot, .. } => {
+                    starts.entry(*slot).or_insert((t, i));
+                }
+                Op::ResumeIter { slot } => {
+                    resumes.entry(*slot).or_insert((t, i));
+                }
+                _ => {}
+            }
+        }
+    }
+    let counters = Mutex::new(Counters::default());
+    for (t, ops) in sc.threads.iter().enumerate() {
+        for (i, op) in ops.iter().enumerate() {
+            let needed = op_searchers(op);
+            let mut own: Vec<Option<TSut>> = (0..sc.searchers.len()).map(|_| None).collect();
+            if fresh_per_op {
+                for s in needed {
+                    if s < sc.searchers.len() && own[s].is_none() {
+                        own[s] = Some(build_tsut(&sc.searchers[s])?);
+                    }
+                }
+            }
+            let suts: &[Option<TSut>] = if fresh_per_op { &own } else { &shared };
+            let slots: Mutex<Vec<Option<InFlight>>> = Mutex::new((0..sc.slots).map(|_| None).collect());
+            let mut bufs: Vec<Vec<u8>> = vec![Vec::with_capacity(1024), Vec::with_capacity(1024)];
+            match op {
+                Op::ResumeIter { slot } => {
+                    // result is produced together with its StartIter (below),
+                    // unless there is no producer at all
+                    if !starts.contains_key(slot) || resumes.get(slot) != Some(&(t, i)) {
+                        out[t][i] = vec![R::Err("handoff never arrived".into())];
+                    }
+                }
+                Op::StartIter { slot, .. } => {
+                    let env = Env { suts, fixed: &sc.fixed_hays, slots: &slots, counters: &counters };
+                    if starts.get(slot) != Some(&(t, i)) {
+                        // a second producer for the same slot: executed alone
+                        out[t][i] = exec_op(&env, None, &mut bufs, op, 0);
+                    } else {
+                        out[t][i] = exec_op(&env, None, &mut bufs, op, 0);
+                        if let Some(&(rt, ri)) = resumes.get(slot) {
+                            let mut bufs2: Vec<Vec<u8>> = vec![Vec::with_capacity(1024), Vec::with_capacity(1024)];
+                            out[rt][ri] = exec_op(&env, None, &mut bufs2, &sc.threads[rt][ri], 0);
+                        }
+                    }
+                    slots.lock().unwrap().clear();
+                }
+                _ => {
+                    let env = Env { suts, fixed: &sc.fixed_hays, slots: &slots, counters: &counters };
+                    out[t][i] = exec_op(&env, None, &mut bufs, op, 0);
+                }
+            }
+        }
+    }
+    Ok(out)
+}
+
+#[derive(Debug, Clone)]
+pub struct TViolation {
+    pub class: String,
+    pub detail: String,
+}
+
+fn short_op(op: &Op) -> String {
+    let s = format!("{:?}", op);
+    if s.len() > 300 {
+        format!("{}...", &s[..300])
+    } else {
+        s
+    }
+}
+
+fn compare(sc: &ThreadScenario, want: &[Vec<Vec<R>>], got: &[Vec<Vec<R>>], class: &str, what: &str) -> Option<TViolation> {
+    for t in 0..want.len() {
+        for i in 0..want[t].len() {
+            let g = got.get(t).and_then(|x| x.get(i));
+            if g != Some(&want[t][i]) {
+                return Some(TViolation {
+                    class: class.to_string(),
+                    detail: format!(
+                        "thread {} op #{} {}: {} gave {:?}; alone on a fresh searcher it gives {:?}",
+                        t, i, short_op(&sc.threads[t][i]), what,
+                        g.map(|v| &v[..v.len().min(12)]), &want[t][i][..want[t][i].len().min(12)]
+                    ),
+                });
+            }
+        }
+    }
+    None
+}
+
+pub struct TVerdict {
+    pub violation: Option<TViolation>,
+    pub invalid: Option<String>,
+    pub conc: Option<ConcRun>,
+}
+
+pub fn exec(sc: &ThreadScenario) -> TVerdict {
+    let before = match reference(sc) {
+        Ok(r) => r,
+        Err(e) => return TVerdict { violation: None, invalid: Some(e), conc: None },
+    };
+    let suts = match build_all(sc) {
+        Ok(s) => s,
+        Err(e) => return TVerdict { violation: None, invalid: Some(e), conc: None },
+    };
+    let conc = run_conc(sc, &suts);
+    drop(suts);
+    if conc.deadlock {
+        // only reachable for hand-edited / minimiser-edited scenarios (a
+        // consumer whose producer was removed): not a judgement about the library
+        return TVerdict { violation: None, invalid: Some("scheduler deadlock: a ResumeIter has no reachable producer".into()), conc: Some(conc) };
+    }
+    if let Some(d) = &conc.thread_died {
+        return TVerdict {
+            violation: Some(TViolation { class: "thread-died".into(), detail: format!("a client thread died outside any operation: {}", d) }),
+            invalid: None,
+            conc: Some(conc),
+        };
+    }
+    let class = if sc.threads.len() == 1 { "history-dependence" } else { "concurrent-result-differs" };
+    let what = if sc.threads.len() == 1 { "on the long-lived searcher, after the preceding operations," } else { "on the shared searcher under this interleaving" };
+    if let Some(v) = compare(sc, &before, &conc.results, class, what) {
+        return TVerdict { violation: Some(v), invalid: None, conc: Some(conc) };
+    }
+    let after = match reference(sc) {
+        Ok(r) => r,
+        Err(e) => return TVerdict { violation: None, invalid: Some(e), conc: Some(conc) },
+    };
+    if let Some(v) = compare(sc, &before, &after, "history-dependence", "a fresh searcher built after the concurrent phase") {
+        return TVerdict { violation: Some(v), invalid: None, conc: Some(conc) };
+    }
+    if conc.deadlock {
+        return TVerdict { violation: None, invalid: Some("scheduler deadlock (scenario construction bug)".into()), conc: Some(conc) };
+    }
+    TVerdict { violation: None, invalid: None, conc: Some(conc) }
+}
+
+// ------------------------------------------------------------------ driver side
+
+pub fn plan(thorough: bool, s: f64) -> Vec<ClassPlan> {
+    let n = |q: u64, t: u64| -> u64 { (((if thorough { t } else { q }) as f64) * s).ceil() as u64 };
+    vec![
+        ClassPlan { class: "conc", total: n(16_000, 1_600_000) },
+        ClassPlan { class: "hist", total: n(4_000, 400_000) },
+    ]
+}
+
 pub fn required_probes() -> Vec<&'static str> {
-    vec![]
+    vec![
+        "switch_inside_search_loop",
+        "switch_inside_stream_loop",
+        "switch_at_seam_call",
+        "switch_inside_nfa_failure_loop",
+        "handoff_completed",
+        "stall_fired",
+        "client_crash_fired",
+        "io_error_fired",
+        "cancelled_iterator",
+        "clone_op",
+        "nested_search",
+        "interleaved_iterators",
+        "policy_pct_run",
+        "policy_random_run",
+        "packed_op",
+        "packed_searcher_entered",
+        "prefilter_consulted",
+        "history_run",
+    ]
 }
-pub fn run_job(_spec: &JobSpec, _progress: &dyn Fn(u64)) -> WorkerOut {
-    WorkerOut::default()
+
+pub fn gen_value(_prop: &str, class: &str, seed: u64, idx: u64) -> serde_json::Value {
+    serde_json::to_value(gen_thread(class, seed, idx)).unwrap()
 }
-pub fn gen_value(_prop: &str, _class: &str, _seed: u64, _idx: u64) -> serde_json::Value {
-    serde_json::Value::Null
+
+fn sig(sc: &ThreadScenario) -> u64 {
+    let mut h = Hasher64::new();
+    let s = serde_json::to_vec(sc).unwrap_or_default();
+    h.bytes(&s);
+    h.finish()
 }
+
+pub fn run_job(spec: &JobSpec, progress: &dyn Fn(u64)) -> WorkerOut {
+    silence_panics();
+    let class = spec.class.split('#').next().unwrap_or("conc").to_string();
+    let mut out = WorkerOut::default();
+    out.sites = vec![0; NSITES];
+    let mut nontrivial: HashSet<u64> = HashSet::new();
+    let mut sigs: HashSet<u64> = HashSet::new();
+    let mut traces: HashSet<u64> = HashSet::new();
+    let probe = |out: &mut WorkerOut, name: &str, n: u64| {
+        *out.probes.entry(name.to_string()).or_insert(0) += n;
+    };
+    for idx in spec.from..spec.to {
+        progress(idx);
+        let mut sc = gen_thread(&class, spec.seed, idx);
+        out.scenarios += 1;
+        let v = exec(&sc);
+        if let Some(inv) = v.invalid {
+            out.invalid += 1;
+            if out.invalid_samples.len() < 3 {
+                out.invalid_samples.push(format!("idx {}: {}", idx, inv));
+            }
+            continue;
+        }
+        let conc = v.conc.as_ref().unwrap();
+        out.execs += 1;
+        out.events += conc.points;
+        let mut h = Hasher64::new();
+        h.u64(idx);
+        h.u64(conc.trace);
+        h.u64(conc.points);
+        let rs = serde_json::to_vec(&conc.results).unwrap_or_default();
+        h.bytes(&rs);
+        out.range_hash = out.range_hash.wrapping_add(h.finish());
+        for i in 0..NSITES {
+            out.sites[i] += conc.sites[i];
+        }
+        let s = sig(&sc);
+        sigs.insert(s);
+        let c = &conc.counters;
+        let in_search = conc.switch_sites.iter().any(|&x| x == verif::site::FIND_FWD_BYTE || x == verif::site::OVERLAPPING_BYTE);
+        let in_stream = conc.switch_sites.iter().any(|&x| x == verif::site::STREAM_BYTE || x == verif::site::STREAM_NEXT);
+        let at_seam = conc.switch_sites.iter().any(|&x| x == crate::sched::SEAM_READ || x == crate::sched::SEAM_WRITE || x == crate::sched::SEAM_CLOSURE);
+        let in_fail = conc.switch_sites.iter().any(|&x| x == verif::site::NFA_NONCONTIGUOUS_FAIL || x == verif::site::NFA_CONTIGUOUS_FAIL);
+        probe(&mut out, "switch_inside_search_loop", in_search as u64);
+        probe(&mut out, "switch_inside_stream_loop", in_stream as u64);
+        probe(&mut out, "switch_at_seam_call", at_seam as u64);
+        probe(&mut out, "switch_inside_nfa_failure_loop", in_fail as u64);
+        probe(&mut out, "handoff_completed", c.handoff_completed);
+        probe(&mut out, "stall_fired", conc.stall_fired as u64);
+        probe(&mut out, "client_crash_fired", c.client_crash);
+        probe(&mut out, "io_error_fired", c.io_error);
+        probe(&mut out, "cancelled_iterator", c.cancel);
+        probe(&mut out, "clone_op", c.clone_ops);
+        probe(&mut out, "nested_search", c.nested);
+        probe(&mut out, "interleaved_iterators", c.interleaved);
+        probe(&mut out, "policy_pct_run", (sc.policy == Policy::Pct && sc.threads.len() > 1) as u64);
+        probe(&mut out, "policy_random_run", (sc.policy == Policy::Random && sc.threads.len() > 1) as u64);
+        probe(&mut out, "packed_op", c.packed_ops);
+        probe(&mut out, "packed_searcher_entered", conc.sites[verif::site::PACKED_FIND_IN as usize]);
+        probe(&mut out, "prefilter_consulted", conc.sites[verif::site::FIND_FWD_PREFILTER as usize] + conc.sites[verif::site::OVERLAPPING_PREFILTER as usize]);
+        probe(&mut out, "history_run", (sc.threads.len() == 1) as u64);
+        probe(&mut out, "context_switches", conc.switches);
+        probe(&mut out, "context_switches_inside_library", conc.switches_in_lib);
+        probe(&mut out, "operations", c.ops);
+        probe(&mut out, "stream_operations", c.stream_ops);
+        *out.fired.entry("client_crash_panic".into()).or_insert(0) += c.client_crash;
+        *out.fired.entry("stream_io_error".into()).or_insert(0) += c.io_error;
+        *out.fired.entry("cancel_drop_iterator".into()).or_insert(0) += c.cancel;
+        *out.fired.entry("stall_thread".into()).or_insert(0) += conc.stall_fired as u64;
+        *out.fired.entry("iterator_migration".into()).or_insert(0) += c.handoff_completed;
+        *out.config_counts.entry(format!("class={}", class)).or_insert(0) += 1;
+        *out.config_counts.entry(format!("threads={}", sc.threads.len())).or_insert(0) += 1;
+        *out.config_counts.entry(format!("policy={:?}", sc.policy)).or_insert(0) += 1;
+        traces.insert(conc.trace ^ s);
+        if let Some(x) = v.violation {
+            out.failure_count += 1;
+            *out.classes.entry(x.class.clone()).or_insert(0) += 1;
+            if out.failures.len() < 4 {
+                sc.decisions = Some(conc.decisions.clone());
+                out.failures.push(Failure {
+                    idx,
+                    gen_class: class.clone(),
+                    class: x.class,
+                    detail: x.detail,
+                    scenario: serde_json::to_value(&sc).unwrap(),
+                });
+            }
+            continue;
+        }
+        let nt = c.matches > 0 && (if sc.threads.len() > 1 { conc.switches_in_lib >= 2 } else { c.ops >= 8 });
+        if nt {
+            nontrivial.insert(conc.trace ^ s);
+            if out.samples.len() < spec.want_samples {
+                out.samples.push(serde_json::json!({
+                    "note": "non-trivial: some operation reported a match and (concurrent class) at least two context switches happened inside library search loops / (history class) at least 8 operations ran on the long-lived searcher",
+                    "threads": sc.threads.iter().map(|t| t.iter().map(short_op).collect::<Vec<_>>()).collect::<Vec<_>>(),
+                    "searchers": sc.searchers.iter().map(|s| serde_json::json!({"patterns": s.patterns.iter().map(|p| crate::scenario::show(p)).collect::<Vec<_>>(), "opts": s.opts, "packed": s.packed})).collect::<Vec<_>>(),
+                    "policy": format!("{:?} density={} change_points={:?} stall={:?}", sc.policy, sc.density, sc.change_points, sc.stall),
+                    "scheduler_decisions": conc.decisions.iter().take(64).collect::<Vec<_>>(),
+                    "context_switches": conc.switches,
+                    "yield_points": conc.points,
+                    "results_thread0": conc.results.first().map(|r| r.iter().take(3).collect::<Vec<_>>()),
+                }));
+            }
+        }
+    }
+    out.nontrivial = nontrivial.into_iter().collect();
+    out.nontrivial.sort();
+    out.signatures = traces.into_iter().collect(); // distinct (scenario, interleaving) hashes
+    out.signatures.sort();
+    let _ = sigs;
+    out
+}
+
 pub fn evidence_texts() -> (String, serde_json::Value, Vec<String>) {
-    (String::new(), serde_json::Value::Null, vec![])
+    let rule = "Scenarios are generated from (VERIF_SEED, run index): 1-3 searchers (AhoCorasick with every kind/option/match kind, the three Automaton types, packed::Searcher), 3-5 haystacks, 2-4 client threads with 2-8 operations each over the whole public search API (class conc) or one client with 12-40 operations (class hist), handoff pairs (an iterator started by one client is drained by another), a scheduling policy (uniform random with a preemption density, or PCT with d change points), and faults (client crash = panic thrown from the reader/writer/closure, stream I/O errors, dropped iterators, a stalled thread, clone/drop of the searcher, re-entrant nested search from inside a read/closure). One evaluation = one execution of the concurrent phase on real OS threads, exactly one of which runs at a time (baton), with yield points inside the library search loops (guarded hooks) and at every seam call; every operation's outcome is compared with the same operation executed alone on a freshly built private searcher, computed before and after the concurrent phase. Non-trivial: some operation reported a match and at least two context switches happened inside library loops (conc) / at least 8 operations ran on the long-lived searcher (hist). Distinct = distinct (scenario hash, interleaving hash) where the interleaving hash covers every context switch (from-thread, site, to-thread).".to_string();
+    let components = serde_json::json!({
+        "real_code": [
+            "real OS threads (std::thread::scope) sharing real searchers by reference; AhoCorasick clones (Arc) made and dropped during the run",
+            "all search entry points: try_find/find/is_match, find_iter, overlapping state stepping and iterator, replace_all(_with)_bytes, stream find/replace on simulated readers/writers, packed::Searcher find_in/find_iter; prefilters, memchr, Teddy native",
+        ],
+        "stubs": [
+            "the choice of which thread runs (baton scheduler at hook yield points and seam calls; seeded or replayed from an explicit decision list)",
+            "SimReader / SimWriter / scripted closure (as in streamsim), including panics thrown from inside them"
+        ],
+        "second_engine": "Miri (free-running threads, seeded preemption, data-race detector) on reduced scenarios; see miri_* keys"
+    });
+    let assumptions = vec![
+        "Only the baton holder runs library code, so interleavings are explored at hook/seam granularity; instruction-level races are left to the Miri batch.".to_string(),
+        "The reference is the library itself on a fresh searcher: results are compared with themselves, so defects of single-threaded semantics are out of scope here.".to_string(),
+        "The hook thread-locals (cfg(aho_corasick_verif)) are harness state and not part of the searchers.".to_string(),
+    ];
+    (rule, components, assumptions)
 }
-pub fn replay(_rf: &ReplayFile, _path: &str, _verbose: bool) -> i32 {
-    2
+
+pub fn replay(rf: &ReplayFile, path: &str, verbose: bool) -> i32 {
+    let sc: ThreadScenario = match serde_json::from_value(rf.scenario.clone()) {
+        Ok(s) => s,
+        Err(e) => {
+            eprintln!("bad thread scenario: {}", e);
+            return 2;
+        }
+    };
+    silence_panics();
+    let v = exec(&sc);
+    if let Some(inv) = v.invalid {
+        println!("REPLAY invalid: {}", inv);
+        return 2;
+    }
+    if verbose {
+        if let Some(c) = &v.conc {
+            println!("  yield points {}, context switches {} ({} inside the library), decisions {:?}", c.points, c.switches, c.switches_in_lib, &c.decisions[..c.decisions.len().min(64)]);
+        }
+    }
+    match v.violation {
+        Some(x) => {
+            println!("REPLAY class={} property={} detail: {}", x.class, rf.property, x.detail);
+            println!("VIOLATION property={} replay={}", rf.property, path);
+            1
+        }
+        None => {
+            println!("REPLAY held property={}", rf.property);
+            0
+        }
+    }
 }
-pub fn minimise(_rf: &mut ReplayFile, _outp: &str) -> i32 {
-    2
+
+pub fn minimise(rf: &mut ReplayFile, outp: &str) -> i32 {
+    let sc: ThreadScenario = match serde_json::from_value(rf.scenario.clone()) {
+        Ok(s) => s,
+        Err(_) => return 2,
+    };
+    silence_panics();
+    let (m, used) = crate::tmin::minimise(&sc, &rf.class, 1500);
+    let v = exec(&m);
+    if let Some(x) = &v.violation {
+        rf.detail = x.detail.clone();
+    }
+    rf.scenario = serde_json::to_value(&m).unwrap();
+    rf.note = format!("minimised with {} re-executions", used);
+    if std::fs::write(outp, serde_json::to_string_pretty(&rf).unwrap()).is_ok() {
+        0
+    } else {
+        2
+    }
+}
+
+// ------------------------------------------------------------------ free-running mode (Miri)
+
+/// The concurrent phase with NO baton: threads run freely. Used under Miri,
+/// whose own seeded scheduler preempts at arbitrary instructions and whose
+/// race detector needs accesses that are not ordered by a baton.
+pub fn run_free(sc: &ThreadScenario, suts: &[Option<TSut>]) -> Vec<Vec<Vec<R>>> {
+    let n = sc.threads.len();
+    let slots: Mutex<Vec<Option<InFlight>>> = Mutex::new((0..sc.slots).map(|_| None).collect());
+    let counters = Mutex::new(Counters::default());
+    let results: Mutex<Vec<Vec<Vec<R>>>> = Mutex::new(vec![Vec::new(); n]);
+    {
+        let env = Env { suts, fixed: &sc.fixed_hays, slots: &slots, counters: &counters };
+        std::thread::scope(|scope| {
+            for tid in 0..n {
+                let env = &env;
+                let results = &results;
+                let ops = &sc.threads[tid];
+                scope.spawn(move || {
+                    let mut bufs: Vec<Vec<u8>> = vec![Vec::with_capacity(256), Vec::with_capacity(256)];
+                    let mut res = Vec::with_capacity(ops.len());
+                    for op in ops.iter() {
+                        res.push(exec_op(env, None, &mut bufs, op, tid));
+                    }
+                    results.lock().unwrap()[tid] = res;
+                });
+            }
+        });
+    }
+    slots.lock().unwrap().clear();
+    let r = std::mem::take(&mut *results.lock().unwrap());
+    r
+}
+
+/// `simctl miri-run <seed> <from> <to> [replay-file]`: reduced scenarios,
+/// free-running threads, results compared with the sequential reference.
+pub fn miri_run(seed: u64, from: u64, to: u64, replay_file: Option<&str>) -> i32 {
+    silence_panics();
+    let mut bad = 0;
+    let scenarios: Vec<(u64, ThreadScenario)> = match replay_file {
+        Some(p) => {
+            let s = std::fs::read_to_string(p).expect("replay file");
+            let rf: ReplayFile = serde_json::from_str(&s).expect("replay json");
+            vec![(0, serde_json::from_value(rf.scenario).expect("scenario"))]
+        }
+        None => (from..to).map(|i| (i, gen_thread("miri", seed, i))).collect(),
+    };
+    for (idx, sc) in scenarios {
+        let want = match reference_with(&sc, false) {
+            Ok(r) => r,
+            Err(e) => {
+                println!("MIRI-RUN idx={} invalid: {}", idx, e);
+                continue;
+            }
+        };
+        let suts = match build_all(&sc) {
+            Ok(s) => s,
+            Err(e) => {
+                println!("MIRI-RUN idx={} invalid: {}", idx, e);
+                continue;
+            }
+        };
+        let got = run_free(&sc, &suts);
+        drop(suts);
+        let nops: usize = sc.threads.iter().map(|t| t.len()).sum();
+        match compare(&sc, &want, &got, "concurrent-result-differs", "on the shared searcher with free-running threads") {
+            Some(v) => {
+                bad += 1;
+                println!("MIRI-RUN idx={} MISMATCH class={} detail: {}", idx, v.class, v.detail);
+                println!("MIRI-SCENARIO {}", serde_json::to_string(&sc).unwrap());
+            }
+            None => println!("MIRI-RUN idx={} ok threads={} ops={}", idx, sc.threads.len(), nops),
+        }
+    }
+    if bad > 0 {
+        1
+    } else {
+        0
+    }
 }
